@@ -862,7 +862,8 @@ impl C20 {
         }
 
         // ---- clause 2: every error is printed ----------------------------------------------------------
-        if let Outcome::Rejected { errors, .. } = &lib {
+        // (not demanded for unwritable paths: a driver may refuse the output path before it compiles anything)
+        if let (Outcome::Rejected { errors, .. }, false) = (&lib, case.mode.unwritable()) {
             let rendered: Vec<&str> = errors.iter().map(|x| x.rendered.as_deref().unwrap_or("")).collect();
             let both = format!("{}\n{}", so, se);
             let (stream_name, stream): (&str, &str) = if contains_all(&so, &rendered).is_ok() {
